@@ -12,6 +12,7 @@ import KafkaVerif.Model.GroupStart
 import KafkaVerif.Model.Group
 import KafkaVerif.Model.GroupFront
 import KafkaVerif.Spec.GroupWire
+import Oracle.GroupWireOps
 
 namespace KV.OracleC03
 open KV KV.Commit
@@ -328,41 +329,41 @@ def lastReader (rs : List GroupHist.Reader) (m : Nat) : Option (Nat × GroupHist
 An epoch is created when the coordinator answers the member's OffsetFetch (`assign`) and becomes the member's active
 epoch when its Reader subscribes (`sub`); until then deliveries still belong to the member's previous epoch.
 `act`/`pend` map a member to the index of its active / created-but-not-yet-subscribed epoch. -/
-def gAccept : GroupHist.G → List (Nat × Nat) → List (Nat × Nat) → List GTok → Nat → Option (Nat × String)
+def gAccept (sl : Bool) : GroupHist.G → List (Nat × Nat) → List (Nat × Nat) → List GTok → Nat → Option (Nat × String)
   | _, _, _, [], _ => none
   | s, act, pend, t :: ts, i =>
     match t with
-    | .produce => match GroupHist.gstep false s .produce with
-      | some s' => gAccept s' act pend ts (i + 1) | none => some (i, "produce")
-    | .assign m st => match GroupHist.gstep false s (.assign m) with
+    | .produce => match GroupHist.gstep sl s .produce with
+      | some s' => gAccept sl s' act pend ts (i + 1) | none => some (i, "produce")
+    | .assign m st => match GroupHist.gstep sl s (.assign m) with
       | some s' =>
         (match s'.readers.getLast? with
          | some rd =>
-           if rd.start == st then gAccept s' act ((m, s'.readers.length - 1) :: pend.filter (·.1 != m)) ts (i + 1)
+           if rd.start == st then gAccept sl s' act ((m, s'.readers.length - 1) :: pend.filter (·.1 != m)) ts (i + 1)
            else some (i, s!"assign-start model={rd.start}")
          | none => some (i, "assign"))
       | none => some (i, "assign")
     | .sub m _ =>
       match pend.lookup m with
-      | some idx => gAccept s ((m, idx) :: act.filter (·.1 != m)) (pend.filter (·.1 != m)) ts (i + 1)
-      | none => gAccept s act pend ts (i + 1)
+      | some idx => gAccept sl s ((m, idx) :: act.filter (·.1 != m)) (pend.filter (·.1 != m)) ts (i + 1)
+      | none => gAccept sl s act pend ts (i + 1)
     | .deliver m off =>
       match act.lookup m with
       | some idx =>
         match s.readers[idx]? with
         | some rd =>
           if rd.pos == off then
-            match GroupHist.gstep false s (.deliver idx) with
-            | some s' => gAccept s' act pend ts (i + 1)
+            match GroupHist.gstep sl s (.deliver idx) with
+            | some s' => gAccept sl s' act pend ts (i + 1)
             | none => some (i, "deliver-beyond-log")
           else some (i, s!"deliver-position model={rd.pos}")
         | none => some (i, "deliver-without-assignment")
       | none => some (i, "deliver-without-subscription")
     | .commit m o ack =>
-      match GroupHist.gstep false s (.commit m o ack) with
-      | some s' => gAccept s' act pend ts (i + 1)
+      match GroupHist.gstep sl s (.commit m o ack) with
+      | some s' => gAccept sl s' act pend ts (i + 1)
       | none => some (i, "commit-beyond-delivered-to-member")
-    | .taken _ _ => gAccept s act pend ts (i + 1)
+    | .taken _ _ => gAccept sl s act pend ts (i + 1)
 
 def gscan (f : List GTok → GTok → Option String) : List GTok → List GTok → Nat → Option String
   | _, [], _ => none
@@ -383,7 +384,10 @@ def forModel (es : List GTok) : List GTok :=
 /-- every record below an acknowledged commit was handed to the application of some member: returned before the
 acknowledgement — or, in ReadMessage mode, taken before it and returned by that ReadMessage call afterwards (ReadMessage
 commits before it returns) -/
-def monCovered (es : List GTok) : Option String :=
+def monCovered (sl : Bool) (es : List GTok) : Option String :=
+  -- with StartOffset = LastOffset the group never sees what was stored before its first start position
+  let base : Nat := if sl then (match es.find? (fun e => match e with | .assign _ _ => true | _ => false) with
+    | some (.assign _ st) => st | _ => 0) else 0
   let idx := es.zipIdx
   idx.findSome? fun (e, i) =>
     match e with
@@ -392,7 +396,7 @@ def monCovered (es : List GTok) : Option String :=
       let after := es.drop (i + 1)
       let returned (l : List GTok) (r : Nat) : Bool := l.any fun p => match p with | .deliver _ r' => r' == r | _ => false
       let took (l : List GTok) (r : Nat) : Bool := l.any fun p => match p with | .taken _ r' => r' == r | _ => false
-      match (List.range o).find? (fun r => !(returned before r || (took before r && returned after r))) with
+      match (List.range o).find? (fun r => decide (base ≤ r) && !(returned before r || (took before r && returned after r))) with
       | some r =>
         -- a record ReadMessage took for the application but never returned (its commit failed) is the known gap of
         -- ReadMessage (C03-D30); anything else never reached an application at all
@@ -402,12 +406,13 @@ def monCovered (es : List GTok) : Option String :=
     | _ => none
 
 /-- each assignment starts at the group's committed offset, or at the log start when there is none -/
-def monResume (es : List GTok) : Option String :=
+def monResume (sl : Bool) (es : List GTok) : Option String :=
   gscan (fun past e =>
     match e with
     | .assign m st =>
       let c := match past.find? (fun p => match p with | .commit _ _ true => true | _ => false) with
-        | some (.commit _ o _) => o | _ => 0
+        | some (.commit _ o _) => o
+        | _ => if sl then (past.filter (fun p => match p with | .produce => true | _ => false)).length else 0
       if st == c then none else some s!"resume-not-at-commit:m{m}:{st}!={c}"
     | .sub m st =>
       -- since this member's previous subscription there must be a (successful) OffsetFetch answer for it
@@ -429,14 +434,14 @@ def monNoGap (es0 : List GTok) : Option String :=
       | _ => some s!"deliver-without-subscribe:m{m}"
     | _ => none) [] es 0
 
-def opGTrace (evs : String) : String :=
+def opGTrace (sl : Bool) (evs : String) : String :=
   let toks := evs.splitOn ";"
   match toks.mapM parseGTok with
   | some es =>
-    let acc := match gAccept {} [] [] (forModel es) 0 with
+    let acc := match gAccept sl {} [] [] (forModel es) 0 with
       | none => "ok"
       | some (i, why) => s!"reject@{i}:{why}"
-    let ms := [monCovered es, monResume es, monNoGap es].filterMap id
+    let ms := [monCovered sl es, monResume sl es, monNoGap es].filterMap id
     let m := if ms.isEmpty then acc else acc ++ " mon=" ++ ",".intercalate ms
     s!"model={m} holds={if ms.isEmpty then 1 else 0}"
   | none => s!"bad-op {(toks.find? (fun t => (parseGTok t).isNone)).getD "?"}"
@@ -520,68 +525,6 @@ def opFTrace (evs : String) : String :=
     s!"model={m} holds={if ms.isEmpty then 1 else 0}"
   | none => s!"bad-op {(toks.find? (fun t => (parseFTok t).isNone)).getD "?"}"
 
-/-! ### response bodies written by the byte-level coordinator path, re-encoded from their description -/
-
-open KV.Spec.GroupWire in
-def wireBody (method desc : String) : Option Bytes :=
-  let desc := if desc == "-" then "" else desc
-  let topics (f : String → Option Bytes) : Option Bytes := do
-    let ts := if desc == "" then [] else desc.splitOn ";"
-    let bs ← ts.mapM fun t =>
-      match t.splitOn ":" with
-      | [name, ps] => do
-        let pl := if ps == "" then [] else ps.splitOn "+"
-        let pb ← pl.mapM f
-        some (str name ++ i32 pl.length ++ pb.flatten)
-      | _ => none
-    some (i32 ts.length ++ bs.flatten)
-  match method with
-  | "offsetCommit" => topics fun p =>
-      match p.splitOn "=" with
-      | [pt, c] => do some (i32 (← pt.toInt?) ++ i16 (← c.toInt?))
-      | _ => none
-  | "offsetFetch" => topics fun p =>
-      match p.splitOn "=" with
-      | [po, c] =>
-        match po.splitOn "@" with
-        | [pt, o] => do some (i32 (← pt.toInt?) ++ i64 (← o.toInt?) ++ str "" ++ i16 (← c.toInt?))
-        | _ => none
-      | _ => none
-  | "heartbeat" | "leaveGroup" => desc.toInt?.map errOnly
-  | "findCoordinator" =>
-    match desc.splitOn "," with
-    | [c, host, port] => do some (findCoordinatorResp (← c.toInt?) host (← port.toInt?))
-    | _ => none
-  | "syncGroup" =>
-    match desc.splitOn "," with
-    | [c, "R", hex] => do some (syncGroupResp (← c.toInt?) (← if hex == "" then some [] else ofHex hex))
-    | c :: "A" :: rest =>
-      let a := ",".intercalate rest
-      let ts := if a == "" then [] else a.splitOn ";"
-      do
-        let tl ← ts.mapM fun t =>
-          match t.splitOn ":" with
-          | [name, ps] => do some (name, ← (if ps == "" then [] else ps.splitOn "+").mapM (·.toInt?))
-          | _ => none
-        some (syncGroupResp (← c.toInt?) (assignment tl))
-    | _ => none
-  | "joinGroup" =>
-    match desc.splitOn "," with
-    | [c, g, proto, leader, member, ms] => do
-      let ml := if ms == "" then [] else ms.splitOn "|"
-      let members ← ml.mapM fun m =>
-        match m.splitOn "=" with
-        | [mid, ts] => some (mid, if ts == "" then [] else ts.splitOn "+")
-        | _ => none
-      some (joinGroupResp (← c.toInt?) (← g.toInt?) proto leader member members)
-    | _ => none
-  | _ => none
-
-def opWireBody (method desc impl : String) : String :=
-  match wireBody method desc with
-  | some b => let h := toHex b; s!"model={h} holds={if h == impl then 1 else 0}"
-  | none => "bad-op"
-
 def answer (line : String) : String :=
   match line.splitOn " => " with
   | [req, impl] =>
@@ -590,9 +533,10 @@ def answer (line : String) : String :=
     | ["merge", st, cs] => opMerge st cs impl
     | ["assign", start, topics, subs, resp] => opAssign start topics subs resp impl
     | ["ctrace", mode, evs] => opTrace mode evs
-    | ["gtrace", _tp, evs] => opGTrace evs
+    | ["gtrace", tp, evs] => opGTrace (tp.endsWith "@last") evs
     | ["ftrace", evs] => opFTrace evs
-    | ["wirebody", method, desc] => opWireBody method desc impl
+    | ["wirebody", method, desc] => KV.OracleGW.opWireBody method desc impl
+    | ["wirereq", method, desc] => KV.OracleGW.opWireReq method desc impl
     | ["conncodes", _method, codes] =>
       -- Conn.offsetCommit / Conn.offsetFetch report the FIRST non-zero per-partition code of the response (nil if none)
       match (codes.splitOn ",").mapM (·.toInt?) with
